@@ -24,7 +24,9 @@ for sid in sorted(os.listdir('seeded'), key=lambda i: key(i) if '-' in i else ('
 out = ['# Seeded defects and the checks that catch them', '',
        'Every row: a change written by an independent sub-agent that saw only the property text; confirmed to apply, build,',
        'keep the existing suite green and fail its demonstration (`seedconfirm.sh` / `seedtest.sh`, scratch worktree).',
-       'Checks were run with `seedmatrix.sh` (quick tier, scratch worktree). `n` = number of VIOLATION lines, `0` = missed.', '',
+       'Checks were run with `seedmatrix.sh` (quick tier, scratch worktree). `n` = number of VIOLATION lines, `0` = missed.',
+       'Round 5 (ids ending in -8 / -9) was run with FAST=1 STOPAFTER=6: cheapest related check first, stop at the first check that',
+       'catches the change, each harness stops exploring at six candidate findings - so counts are lower bounds and checks after the', 'first catch were not run.', '',
        '| seed | breaks | change | needs | quick checks run: violations |', '|---|---|---|---|---|']
 miss = []
 for sid, meta, res in rows:
